@@ -21,9 +21,9 @@ package main
 //                      error was tested reaches NewConn
 
 import (
-	"go/token"
 	"fmt"
 	"go/constant"
+	"go/token"
 	"go/types"
 	"strings"
 
@@ -56,6 +56,8 @@ func checkC19(p *Prog, r *Report) {
 	c19ServerName(p, r)
 	c19Bundle(p, r)
 	c19HandshakeFirst(p, r)
+	resultThreading(p, r, "C19.result-threading", "astra")
+	c19NoResumption(p, r)
 }
 
 func c19SkipVerify(p *Prog, r *Report) {
@@ -690,7 +692,7 @@ func c19HandshakeFirst(p *Prog, r *Report) {
 				}
 				SetCallResult(st, call, avSymbol("tls"))
 				return []*State{st}
-			case callee != nil && callee.String() == "(*crypto/tls.Conn).Handshake":
+			case callee != nil && (callee.String() == "(*crypto/tls.Conn).Handshake" || callee.String() == "(*crypto/tls.Conn).HandshakeContext"):
 				okSt, bad := st.clone(), st.clone()
 				okSt.aux["hs"] = "ok"
 				bad.aux["hs"] = "err"
@@ -749,7 +751,6 @@ func c19HandshakeFirst(p *Prog, r *Report) {
 	}
 }
 
-
 // sharedPool: v (a *x509.CertPool) can be an object that outlives the call: it is read from a
 // package-level variable (possibly inside a helper) instead of being created by
 // x509.SystemCertPool(), x509.NewCertPool() or Clone() for this use.  Returns the reason, "" if not.
@@ -802,4 +803,38 @@ func sharedPool(p *Prog, v ssa.Value, depth int) string {
 func typeIsNamed(t types.Type, pkgPath, name string) bool {
 	n := namedOf(t)
 	return n != nil && n.Obj().Name() == name && n.Obj().Pkg() != nil && n.Obj().Pkg().Path() == pkgPath
+}
+
+// c19NoResumption: the node certificates are checked in VerifyPeerCertificate (with
+// InsecureSkipVerify set, because the name to verify is not the dialled one).  crypto/tls calls
+// that callback only in a full handshake: with a client session cache a reconnect resumes the
+// session and nothing is verified at all.
+func c19NoResumption(p *Prog, r *Report) {
+	const rule = "C19.no-resumption"
+	r.Rule(rule, "no tls.Config built in package astra enables session resumption (ClientSessionCache stays unset): the custom verification runs only in full handshakes, a resumed session would be accepted without any check of the peer's chain")
+	var bad []string
+	n := 0
+	for _, fn := range p.ScopedFuncs("astra") {
+		for _, lit := range structLits(fn, func(t types.Type) bool { return types.TypeString(t, nil) == "crypto/tls.Config" || types.TypeString(t, nil) == "*crypto/tls.Config" }) {
+			n++
+			if v, ok := lit["ClientSessionCache"]; ok && v != nil {
+				if k, isConst := v.(*ssa.Const); !isConst || k.Value != nil || !k.IsNil() {
+					bad = append(bad, p.Pos(lit["\x00pos"].Pos())+": "+fn.Name()+" builds a tls.Config with a ClientSessionCache")
+				}
+			}
+		}
+		eachInstr(fn, func(in ssa.Instruction) {
+			if st, ok := in.(*ssa.Store); ok {
+				if fa, ok := st.Addr.(*ssa.FieldAddr); ok && fieldOfAddr(fa).Name() == "ClientSessionCache" && types.TypeString(namedOf(fa.X.Type()), nil) == "crypto/tls.Config" {
+					if _, isLit := fa.X.(*ssa.Alloc); isLit {
+						return // counted with the literal
+					}
+					if k, isConst := st.Val.(*ssa.Const); !isConst || !k.IsNil() {
+						bad = append(bad, p.Pos(st.Pos())+": "+fn.Name()+" sets ClientSessionCache of a tls.Config")
+					}
+				}
+			}
+		})
+	}
+	r.check(len(bad) == 0 && n > 0, rule, "tls.Config literals in astra", "", fmt.Sprintf("%d literal(s)", n), strings.Join(dedupe(bad), " || "))
 }
